@@ -547,7 +547,7 @@ extern "C" {
     fn setrlimit(resource: i32, rlim: *const [u64; 2]) -> i32;
 }
 
-const HARD_ADDRESS_SPACE_MIB: u64 = 16 * 1024;
+const HARD_ADDRESS_SPACE_MIB: u64 = 96 * 1024;
 
 /// Run `f` with the soft address-space limit raised to `mib` MiB (at most 16 GiB), then put the
 /// check's own limit back: for the rare scenario whose INPUT is legitimately larger than the
